@@ -273,8 +273,11 @@ func termFromModel(s *Sx, t types.Type) (*Term, error) {
 }
 
 func sliceFromModel(s *Sx, elem types.Type, ss *Sort) (*Term, error) {
-	if !s.IsL || len(s.List) != 4 {
+	if !s.IsL || len(s.List) != 5 {
 		return nil, fmt.Errorf("bad slice value %s", s)
+	}
+	if s.List[4].Atom == "true" {
+		return zeroOfSort(ss, nil), nil
 	}
 	ln, ok1 := sxInt(s.List[1])
 	off, ok2 := sxInt(s.List[2])
@@ -367,6 +370,9 @@ func termFromDump(s *Sx, t types.Type) (*Term, error) {
 }
 
 func listDump(s *Sx, elem types.Type, ss *Sort) (*Term, error) {
+	if !s.IsL && s.Atom == "nil" {
+		return zeroOfSort(ss, nil), nil
+	}
 	if !s.IsL || len(s.List) == 0 || s.List[0].Atom != "$list" {
 		return nil, fmt.Errorf("bad list dump %s", s)
 	}
